@@ -169,6 +169,45 @@ fn in_process(r: &mut Report) {
     }
     r.boxes.push(json!({"box": "in-process histories (repeat, interleave, permute)", "calls": evals}));
     r.evaluations += evals;
+    shared_component_histories(r);
+}
+
+/// Calls that agree in some of their four inputs and differ in the others: the product of word lists x deromanisers x
+/// romanisers x rule lists. Every ordered pair (X, then Y) is run on one thread and Y is compared with what a thread
+/// without a history returns for it — a result remembered under a key that leaves one of the inputs out (word text
+/// without the aliases it was read with, rules without the words, ...) makes some Y depend on its predecessor.
+fn shared_component_histories(r: &mut Report) {
+    let word_lists: Vec<Vec<&str>> = vec![vec!["sha.ta", "ta.ša", "ka"], vec!["ˈpã", "pã", "sha ˈsha"], vec!["qa", "xa.sha", "ˈpã"]];
+    let intos: Vec<Vec<&str>> = vec![vec![], vec!["sh > ʃ"], vec!["sh > s", "š > ʃ"], vec!["q > k"]];
+    let froms: Vec<Vec<&str>> = vec![vec![], vec!["ʃ > sh"], vec!["V:[+str] => +@{acute}"], vec!["a > A", "$ > *"]];
+    let rule_lists: Vec<Vec<&str>> = vec![vec!["a > e"], vec!["ʃ > s", "a > o / _#"]];
+    let mut calls: Vec<(usize, usize, usize, usize)> = vec![];
+    for w in 0..word_lists.len() { for i in 0..intos.len() { for f in 0..froms.len() { for g in 0..rule_lists.len() { calls.push((w, i, f, g)); } } } }
+    let sv = |v: &Vec<&str>| -> Vec<String> { v.iter().map(|s| s.to_string()).collect() };
+    let call = |c: &(usize, usize, usize, usize)| -> String {
+        let g: Vec<asca::RuleGroup> = rule_lists[c.3].iter().map(|x| group(&[x])).collect();
+        let (ws, i, f) = (sv(&word_lists[c.0]), sv(&intos[c.1]), sv(&froms[c.2]));
+        match guarded(5_000_000, || asca::run(&g, &ws, &i, &f)) { Out::Ok(x) => show_result(&x, &g, &ws, &i, &f), o => o.crash_sig().unwrap() }
+    };
+    let fresh: Vec<String> = calls.iter().map(|c| std::thread::scope(|sc| sc.spawn(|| call(c)).join().unwrap())).collect();
+    let distinct: BTreeSet<&String> = fresh.iter().collect();
+    let (mut evals, mut bad) = (0u64, 0u64);
+    for x in 0..calls.len() {
+        for y in 0..calls.len() {
+            let _ = call(&calls[x]);
+            let got = call(&calls[y]);
+            evals += 2;
+            if got != fresh[y] {
+                bad += 1;
+                let differ: Vec<&str> = [("words", calls[x].0 != calls[y].0), ("deromanisers", calls[x].1 != calls[y].1), ("romanisers", calls[x].2 != calls[y].2), ("rules", calls[x].3 != calls[y].3)].iter().filter(|d| d.1).map(|d| d.0).collect();
+                r.viol(Viol { key: format!("history|shared-components|differs-in:{}", differ.join("+")), desc: format!("run(rules {:?}, words {:?}, into {:?}, from {:?}) gives {} on a fresh thread but {} right after run(rules {:?}, words {:?}, into {:?}, from {:?})",
+                    rule_lists[calls[y].3], word_lists[calls[y].0], intos[calls[y].1], froms[calls[y].2], fresh[y], got, rule_lists[calls[x].3], word_lists[calls[x].0], intos[calls[x].1], froms[calls[x].2]), case: json!({"kind": "history"}) });
+            }
+        }
+    }
+    r.boxes.push(json!({"box": "in-process histories over calls sharing some inputs (word lists x deromanisers x romanisers x rule lists, every ordered pair)", "calls": calls.len(), "ordered_pairs": calls.len() * calls.len(), "distinct_results": distinct.len(), "failures": bad}));
+    r.guard(distinct.len() > 30, "shared-component calls have more than 30 distinct results");
+    r.evaluations += evals;
 }
 
 pub fn run() -> i32 {
